@@ -90,6 +90,10 @@ func main() {
 		}
 		os.Exit(2)
 	}
+	if s := os.Getenv("ZV_SURVEY"); s != "" {
+		runSurvey(w, s) // development aid: prints what a rule would cover; no verdict
+		return
+	}
 	if *dump != "" {
 		fn := w.Fn(*dump)
 		if fn == nil {
